@@ -186,6 +186,13 @@ def run(c, chk):
                     ok4 = False
                     chk.fail('R19.4', 'callback-args', c.where(e.ins), 'the print callback is called without its NULL test or with other arguments than (opt, index, fp)')
                     break
+        # a list is never written commented out (an empty list must read back as empty, not as the default)
+        if 'opt->flags has LIST' in conds and '!opt->type eq SEC' in conds:
+            ltexts = [x.args[1][1] for x in ev if x.kind == 'call' and x.name == 'fprintf' and len(x.args) > 1 and x.args[1][0] == 'str']
+            if '# ' in ltexts:
+                ok5 = False
+                chk.fail('R19.5', 'list-commented', c.where(op), 'a list option is written commented out ("# name = {...}"): reading the text back restores the declared default instead of the printed (empty) list')
+                break
         # R19.5: scalar, not a section, not a list
         scalar = ('!opt->type eq SEC' in conds) and ('!opt->flags has LIST' in conds) and ('!opt->type eq FUNC' in conds or 'opt->type ne FUNC' in conds)
         if scalar:
